@@ -162,7 +162,7 @@ pub fn run_case(ctx: &mut Ctx, fam: &str, k: u64, r: &mut Rng) {
         // with the same number of entries and other sizes (a hidden-size sweep with one optimizer)
         let gd = GradientDescent::new(lr as Float);
         let dyadic = r.chance(1, 2);
-        let shapes: Vec<Vec<usize>> = (0..n).map(|_| if r.chance(1, 3) { partner(r, &[2, 3, 1, 2]) } else { rand_shape(r, 4, 3) }).collect();
+        let mut shapes: Vec<Vec<usize>> = (0..n).map(|_| if r.chance(1, 3) { partner(r, &[2, 3, 1, 2]) } else { rand_shape(r, 4, 3) }).collect();
         let desc = format!("n={} gradient-subset={:0width$b} shapes={:?} lr={}", n, subset, shapes, lr, width = n);
         ctx.case(&format!("subsets|{}|{:b}|{:?}|{}", n, subset, shapes, lr), n >= 2 && subset != 0 && subset & 1 == 0);
         ctx.hist("n_parameters", &n.to_string());
@@ -184,10 +184,22 @@ pub fn run_case(ctx: &mut Ctx, fam: &str, k: u64, r: &mut Rng) {
         }
         let mut params: Vec<Param> = vec![];
         let mut installed: Vec<Array> = vec![];
+        let mut bases: Vec<Array> = vec![];
         for i in 0..n {
             let m = numel(&shapes[i]);
             let v: Vec<f64> = if dyadic { (0..m).map(|_| 0.25 * r.int(-16, 16)).collect() } else { (0..m).map(|_| r.int(-1000, 1000) / 333.0).collect() };
-            let a = arr(&shapes[i], &v);
+            let mut a = arr(&shapes[i], &v);
+            // tied initialisation: now and then a parameter is a view of an earlier parameter's value buffer (same or
+            // flat dimensions) - a distinct array with a gradient slot of its own that merely shares its values
+            if i >= 1 && r.chance(1, 6) {
+                let j = r.below(i);
+                let mj = numel(&shapes[j]);
+                shapes[i] = if r.chance(1, 2) { shapes[j].clone() } else { vec![mj] };
+                a = bases[j].reshape(shapes[i].clone());
+                ctx.count("parameters_sharing_a_value_buffer_with_another", 1);
+            }
+            let m = numel(&shapes[i]);
+            bases.push(a.clone());
             let a = if r.chance(4, 5) { a.tracked() } else { a };
             if subset >> i & 1 == 1 {
                 let g: Vec<f64> = if lr == tiny_rate {
@@ -245,7 +257,8 @@ pub fn run_case(ctx: &mut Ctx, fam: &str, k: u64, r: &mut Rng) {
     } else {
         // gradients produced by real passes: y = sum_i x * p_i (+ broadcast), some parameters not used (frozen)
         let full = rand_shape(r, 3, 3);
-        let n = r.range(2, 5);
+        // (a list of ONE parameter included: a single user-defined layer)
+        let n = r.range(1, 5);
         let lr = *r.pick(&[0.5, 0.25, 1.0, 0.0, -0.25]);
         let gd = GradientDescent::new(lr as Float);
         let x = arr(&full, &rand_ints(r, numel(&full), -3, 3));
